@@ -886,6 +886,21 @@ class Executor:
                     bs = None
                 fv = FuncV(fn, mod, qualname=qn, bound_self=bs)
                 return self.call_funcv(fv, args, kwargs, starkw, st, node)
+            # a method of the same class that the sidecar does not know (a helper that was extracted later): inline its real body,
+            # bounded in depth, so that moving a few lines into a helper does not take the function out of reach
+            if getattr(self, "_auto_depth", 0) < 3 and self.class_name:
+                try:
+                    fn = find_def(self.module, f"{self.class_name}.{name}")
+                except LookupError:
+                    fn = None
+                if isinstance(fn, ast.FunctionDef) and not any(isinstance(n, (ast.For, ast.While)) for n in ast.walk(fn)):
+                    decos = [d.id for d in fn.decorator_list if isinstance(d, ast.Name)]
+                    bs = None if "staticmethod" in decos else (o.klass if ("classmethod" in decos and isinstance(o, Obj) and o.klass is not None) else recv)
+                    self._auto_depth = getattr(self, "_auto_depth", 0) + 1
+                    try:
+                        return self.call_funcv(FuncV(fn, self.module, qualname=f"{self.class_name}.{name}", bound_self=bs), args, kwargs, starkw, st, node)
+                    finally:
+                        self._auto_depth -= 1
             raise Unsupported(f"method {key} neither contract nor inline L{line}")
         return self.call_value_method(recv, o, name, args, kwargs, st, node)
 
